@@ -356,7 +356,8 @@ class IterOf(Ty):
         return SIter(xs, SInt(p))
 
     def concrete(self, cx, name):
-        return iter(ListOf(self.elem).concrete(cx, name))
+        from .replaylib import PeekIter
+        return PeekIter(ListOf(self.elem).concrete(cx, name))
 
 
 class FixedList(Ty):
